@@ -49,3 +49,8 @@ Fixpoint join_sp (l : list bytes) : bytes :=
   end.
 Definition lines_spec (Ls : list bytes) : bytes := join_sp (map text_spec Ls).
 Definition doc_spec_lines (Ls : list bytes) : bytes := p_open ++ lines_spec Ls ++ p_close.
+
+(* ---- the same lines in ANY static context: [pre] is the markup written in front of the first line (the start tag of the
+   enclosing element with its constant attributes, or nothing when the lines are the whole body of a template), [post] the
+   markup behind the last one. *)
+Definition ctx_spec_lines (pre post : bytes) (Ls : list bytes) : bytes := pre ++ lines_spec Ls ++ post.
